@@ -3,10 +3,12 @@
 
    The ghost `rpc_log` of a state is the list of RPCs issued in the step that produced it (it is
    reset when a step starts), so "every event of rpc_log t'" is "every RPC of the step".
-   Hypotheses: `Inv t` (TowerInv.inv_reachable); `not_abort x`: the step returned (a step that
-   aborts is a panic of the process, C11; the specifications below describe returning runs);
-   `reorged_tracked t` (only for the four-way form): every uuid in Responder.reorged_trackers has
-   a tracker — true of every reachable state (C02_reorged_tracked_reachable). *)
+   The justification theorems hold for EVERY outcome of the step, aborts included (what was
+   submitted before a handler panicked is not taken back): there t' is the state at the abort.
+   Hypotheses: `Inv t` (TowerInv.inv_reachable); `reorged_tracked t` (only for the four-way form):
+   every uuid in Responder.reorged_trackers has a tracker — true of every reachable state
+   (C02_reorged_tracked_reachable); `not_abort x` only where the statement is about the tables a
+   returning step leaves (responded_implies_given) — a step that aborts is a panic, C11. *)
 From TeosModel Require Import Base TxIndex Tower TowerStable TowerInv TowerProofs TowerBreach.
 From TeosModel.Gen Require Consts.
 Local Open Scope N_scope.
@@ -17,7 +19,7 @@ Local Open Scope N_scope.
    is in `reorged`, or (4) the decrypted penalty of the appointment being added, its dispute being
    in the watcher's cache.  (The penalty of a tracker created in this very step falls under (1).) *)
 Theorem C02_every_send_justified le t o sc t' x :
-  Inv t -> reorged_tracked t -> step le t o sc = (t', x) -> not_abort x ->
+  Inv t -> reorged_tracked t -> step le t o sc = (t', x) ->
   forall e, In e (rpc_log t') -> r_kind e = K_send ->
     (exists hash txs a, o = OConnect hash txs /\ In a (db_apps t) /\ In (a_loc a) txs /\
                         decrypt (a_blob a) (a_loc a) = Some (r_tx e)) \/
@@ -25,7 +27,7 @@ Theorem C02_every_send_justified le t o sc t' x :
     (exists k, In k (db_trks t) /\ mem_uuid (trk_uuid k) (reorged t) = true /\ t_dispute k = r_tx e) \/
     (exists u loc b delay sig d, o = OAdd (Some u) loc b delay sig /\ ti_get (w_cache t) loc = Some d /\
                                  decrypt b d = Some (r_tx e)).
-Proof. exact (every_send_justified le t o sc t' x). Qed.
+Proof. exact (every_send_justified_all le t o sc t' x). Qed.
 
 (* ... the same for ALL states satisfying Inv (no assumption on `reorged`), for sends and mempool
    queries alike; just_send has a fifth, unreachable, case: the dispute — confirmed in the block
@@ -33,9 +35,9 @@ Proof. exact (every_send_justified le t o sc t' x). Qed.
    `reorged` although it had no tracker.  API reads, registrations and disconnections log nothing:
    none of the cases of just_rpc applies to them. *)
 Theorem C02_every_rpc_justified le t o sc t' x :
-  Inv t -> step le t o sc = (t', x) -> not_abort x ->
+  Inv t -> step le t o sc = (t', x) ->
   forall e, In e (rpc_log t') -> just_rpc t o e.
-Proof. exact (every_rpc_justified le t o sc t' x). Qed.
+Proof. exact (every_rpc_justified_all le t o sc t' x). Qed.
 
 (* registrations, reads and disconnections issue no RPC at all (whether the step aborts or not) *)
 Theorem C02_quiet_operations le t o sc t' x :
@@ -58,6 +60,15 @@ Theorem C02_listener_order : Consts.LISTENER_ORDER = [0; 1; 2]%Z.
 Proof. reflexivity. Qed.
 
 Theorem C02_no_send_for_purged le t hash txs sc t' x :
+  Inv t -> step le t (OConnect hash txs) sc = (t', x) ->
+  match gk_block_connected (fresh t) (gk_height t + 1) with
+  | Ok _ tg => forall e, In e (rpc_log t') -> just_rpc tg (OConnect hash txs) e
+  | Abort _ _ => rpc_log t' = []
+  end.
+Proof. exact (connect_rpcs_justified_all le t hash txs sc t' x). Qed.
+
+(* the returning case, with the purge made explicit *)
+Theorem C02_no_send_for_purged_ok le t hash txs sc t' x :
   Inv t -> step le t (OConnect hash txs) sc = (t', x) -> not_abort x ->
   exists tg, gk_block_connected (fresh t) (gk_height t + 1) = Ok tt tg /\
              forall e, In e (rpc_log t') -> just_rpc tg (OConnect hash txs) e.
@@ -112,6 +123,7 @@ Print Assumptions C02_quiet_operations.
 Print Assumptions C02_reorged_tracked_reachable.
 Print Assumptions C02_listener_order.
 Print Assumptions C02_no_send_for_purged.
+Print Assumptions C02_no_send_for_purged_ok.
 Print Assumptions C02_purge_spec.
 Print Assumptions C02_responded_implies_given.
 Print Assumptions C02_accepted_cases.
